@@ -123,6 +123,7 @@ class Engine:
         self.inlined_nodes = set()
         self.back_via_call = set()
         self.edge_conds = {}
+        self.arg_conds = {}       # (ARG node of the switch, target program node) -> [cond]: edge_conds per exploring state
         self.loop_backs = {}
         self.loop_heads = {}
         self.mem_writes = []
@@ -446,6 +447,11 @@ class Engine:
             elif "downcast" in pr:
                 path = path + (("v", pr["downcast"]),)
             elif "index" in pr or "cidx" in pr:
+                if self.record and "cidx" in pr and not pr.get("from_end") and t is not None and t["k"] == "slice":
+                    # a slice pattern (`[a, b, ..] = *buf`) reads the fixed offset like buf[k] would
+                    ent = ((fr.id, None), fr.id, "ConstantIndex", lin.const(pr["cidx"]), lin.const(pr["cidx"] + 1))
+                    if ent not in self.index_log[-8:]:
+                        self.index_log.append(ent)
                 path = path + ("E",)
                 ti = t["inner"] if t is not None and t["k"] in ("slice", "array") else None
             else:
@@ -502,7 +508,14 @@ class Engine:
             return sub, c["ty"]
         p = op.get("copy") or op.get("move")
         root, path, ti = self.resolve(st, fr, p)
-        return self.subtree(st, root, path, ti), ti
+        sub = self.subtree(st, root, path, ti)
+        if ti is not None and len(sub) == 1 and self.prog.types[ti]["k"] == "int":
+            v = sub.get(())
+            if v is not None and v[0] == "t":
+                # an opaque value (e.g. the result of a generic helper) used at an integer type is an integer of that type:
+                # one symbol per term, so that a test made on it and a later copy of it talk about the same number
+                sub = {(): I(lin.var(self.named(("val", v), self.prog.int_range(ti))))}
+        return sub, ti
 
     def eval_promoted(self, st, c):
         """value of a promoted constant: its (straight-line) MIR body is interpreted into a dedicated frame"""
@@ -2025,9 +2038,13 @@ class Engine:
         out = []
         node = (fr.id, bb)
 
+        src_aids = st.aids
+
         def note(tb, cond):
             if self.record:
                 self.edge_conds.setdefault((node, (fr.id, tb)), []).append(cond)
+                for an in src_aids:
+                    self.arg_conds.setdefault((an, (fr.id, tb)), []).append(cond)
 
         if v[0] == "b":
             b = v[1]
@@ -2081,8 +2098,9 @@ class Engine:
         for val, _ in targets:
             s2.ctx.add_neq(e, lin.const(val))
         rng = None
-        # feasibility of otherwise: if the value's range is exactly covered by the targets
-        lo, hi = s2.ctx.bounds(e)
+        # feasibility of otherwise: if the value's range (tightened by what earlier edges established about this very
+        # value, e.g. a previous switch on the same discriminant) is exactly covered by the targets
+        lo, hi = s2.ctx.tight_bounds(e)
         feasible = True
         if lo is not None and hi is not None and hi - lo < 64:
             vals = set(val for val, _ in targets)
@@ -2245,6 +2263,33 @@ class Engine:
             return dict(sub)
         return None
 
+    def synthetic_call_event(self, fr, bb, st, callee_path, args, dest):
+        """event for a crate-local call that MIR does not spell out at this node (a function passed by name to a combinator,
+        the FromStr impl behind str::parse::<T>)"""
+        if not self.record:
+            return None
+        ev = Event()
+        ev.idx = len(self.events)
+        ev.ctx = fr.id
+        ev.body = fr.body.path
+        ev.bb = bb
+        ev.loc = fr.body.loc(bb)
+        ev.callee = callee_path
+        ev.kind = "direct"
+        ev.fn = {"name": callee_path}
+        ev.args = [a_[0].get((), ("agg", a_[0])) for a_ in args]
+        ev.argsnap = [self.snapshot_arg(st, a_[0]) for a_ in args]
+        ev.dest = dest
+        ev.region = fr.region
+        ev.inlined = False
+        ev.ret = None
+        ev.node = (fr.id, bb)
+        ev.anode = st.aids[0] if st.aids else None
+        ev.gargs = []
+        ev.cond = None
+        self.events.append(ev)
+        return ev
+
     def invoke_callable(self, fr, bb, st, nxt, fsub, fti, arg_subs):
         """Call a closure / fn-item VALUE from inside a std model (Option/Result combinators ...):
         crate-local bodies are inlined like any other call, anything else is an uninterpreted application.
@@ -2260,18 +2305,49 @@ class Engine:
         tmp = ("L", fr.id, ("hof", bb, self.symctr))
         t_fake = {"t": nxt}
         outs = None
-        if k == "closure" and prog.types[bti]["def"] in prog.bodies and fr.depth < self.max_depth:
-            cdef = prog.types[bti]["def"]
+        vdef = None
+        if k not in ("closure", "fndef"):
+            # the static type is a type parameter (`F: FnOnce(..)` of a generic helper): the value itself says what it is
+            fv = fsub.get(())
+            hops = 0
+            while fv is not None and fv[0] == "r" and hops < 3:
+                fsub = self.subtree(st, fv[1], fv[2])
+                fv = fsub.get(())
+                hops += 1
+            cm = fsub.get(("$closure",))
+            if cm is not None and cm[0] == "t" and cm[1][0] == "closure":
+                vdef, k = cm[1][1], "closure"
+            elif fv is not None and fv[0] == "fn" and len(fv) > 1:
+                vdef, k = fv[1], "fndef"
+        if k == "closure" and (vdef or prog.types[bti]["def"]) in prog.bodies and fr.depth < self.max_depth:
+            cdef = vdef or prog.types[bti]["def"]
+            if vdef is not None:
+                fti = None
             callee = prog.bodies[cdef]
             tup = {}
             for i, sub in enumerate(arg_subs):
                 for kk, v in sub.items():
                     tup[(i,) + kk] = v
             outs = self.inline_closure(fr, bb, st, t_fake, cdef, [(fsub, fti), (tup, None)], (tmp, (), callee.local_ty(0)), None)
-        elif k == "fndef" and prog.types[bti]["def"] in prog.bodies and fr.depth < self.max_depth:
-            callee = prog.bodies[prog.types[bti]["def"]]
+        elif k == "fndef" and (vdef or prog.types[bti]["def"]) in getattr(prog, "ctor", {}):
+            # a tuple-variant / tuple-struct constructor used as a function value: `.map(Packet::Ack)`
+            ap, vi = prog.ctor[vdef or prog.types[bti]["def"]]
+            out = {}
+            a = prog.adts[ap]
+            basep = ()
+            if a["kind"] == "enum":
+                out[("$discr",)] = ICONST(prog.variant_discr(ap, vi))
+                basep = (("v", vi),)
+            for i, sub in enumerate(arg_subs):
+                for rel, v in sub.items():
+                    out[basep + (i,) + rel] = v
+            return [(st, out)]
+        elif k == "fndef" and (vdef or prog.types[bti]["def"]) in prog.bodies and fr.depth < self.max_depth:
+            callee = prog.bodies[vdef or prog.types[bti]["def"]]
             args = [(sub, callee.local_ty(i + 1) if i < callee.arg_count else None) for i, sub in enumerate(arg_subs)]
-            outs = self.inline(fr, bb, st, t_fake, callee, args, (tmp, (), callee.local_ty(0)), None, {})
+            # the call of a function passed by name (`.and_then(Opcode::from_u16)`) is a call event like any other
+            ev = self.synthetic_call_event(fr, bb, st, callee.path, args, (tmp, ()))
+            outs = self.inline(fr, bb, st, t_fake, callee, args, (tmp, (), callee.local_ty(0)), ev, {})
         if outs is not None:
             # the call is conditional: states that do not take it continue directly
             self.inlined_nodes.discard(node)
@@ -2281,7 +2357,7 @@ class Engine:
                 s2.store.pop(tmp, None)
                 res.append((s2, sub))
             return res
-        name = prog.types[bti].get("def", "?") if bti is not None and k in ("closure", "fndef") else "?"
+        name = vdef or (prog.types[bti].get("def", "?") if bti is not None and k in ("closure", "fndef") else "?")
         argvals = tuple(sub.get((), ("agg", tuple(sorted((repr(kk), v) for kk, v in sub.items())))) for sub in arg_subs)
         if self.record:
             self.unmodelled["<callable> " + str(name)] = self.unmodelled.get("<callable> " + str(name), 0) + 1
